@@ -713,7 +713,8 @@ func (f *FnEnc) mergeStates(a, b *State, cond string) *State {
 		return a.clone()
 	}
 	out := b.clone()
-	for al, bl := range b.locals {
+	for _, al := range sortedAllocs(b.locals) {
+		bl := b.locals[al]
 		alv, ok := a.locals[al]
 		if !ok {
 			continue
@@ -739,18 +740,19 @@ func (f *FnEnc) mergeStates(a, b *State, cond string) *State {
 		}
 		out.locals[al] = nl
 	}
-	for al, alv := range a.locals {
+	for _, al := range sortedAllocs(a.locals) {
+		alv := a.locals[al]
 		if _, ok := b.locals[al]; !ok {
 			out.locals[al] = alv
 		}
 	}
 	// lazily created heaps (maps) may exist in only one of the states
-	for k := range a.heaps {
+	for _, k := range sortedHeapKeys(a.heaps) {
 		if _, ok := out.heaps[k]; !ok {
 			setHeap(out, k, f.lazyHeap(b, k))
 		}
 	}
-	for k := range out.heaps {
+	for _, k := range sortedHeapKeys(out.heaps) {
 		if _, ok := a.heaps[k]; !ok {
 			a.heaps[k] = f.lazyHeap(a, k)
 		}
@@ -803,4 +805,44 @@ func (f *FnEnc) heapSortOf(key string) string {
 		return f.mapHeapSort(key)
 	}
 	return heapSort(key)
+}
+
+// Deterministic iteration orders (map order would make the generated SMT text,
+// and with it solver behaviour, vary from run to run).
+func allocLess(a, b *ssa.Alloc) bool {
+	an, bn := a.Name(), b.Name()
+	if len(an) != len(bn) {
+		return len(an) < len(bn)
+	}
+	if an != bn {
+		return an < bn
+	}
+	return a.Pos() < b.Pos()
+}
+
+func sortedAllocs(m map[*ssa.Alloc][]string) []*ssa.Alloc {
+	out := make([]*ssa.Alloc, 0, len(m))
+	for a := range m {
+		out = append(out, a)
+	}
+	sort.Slice(out, func(i, j int) bool { return allocLess(out[i], out[j]) })
+	return out
+}
+
+func sortedAllocSet(m map[*ssa.Alloc]bool) []*ssa.Alloc {
+	out := make([]*ssa.Alloc, 0, len(m))
+	for a := range m {
+		out = append(out, a)
+	}
+	sort.Slice(out, func(i, j int) bool { return allocLess(out[i], out[j]) })
+	return out
+}
+
+func sortedHeapKeys(m map[string]string) []string {
+	out := make([]string, 0, len(m))
+	for k := range m {
+		out = append(out, k)
+	}
+	sort.Strings(out)
+	return out
 }
